@@ -2,6 +2,9 @@ import CV.Proofs.BitsHistory
 /-!
 # Inspection is a no-op on the bit coders (C08), codebook round trips through the coders (C16)
 -/
+set_option linter.unusedSimpArgs false
+set_option linter.unusedVariables false
+set_option linter.unnecessarySimpa false
 namespace CV.Bits
 
 /-- the inspections of a stack coder: `len`, `is_empty`, `get_compressed()` (guard), `iter()` -/
